@@ -140,6 +140,24 @@ theorem gradient_is_symbolic (F : FnEnv α) (p : List α) (e : Expr α) :
     gradient F p e = (List.range p.length).map fun v => eval F p (D v e) := by
   simp [gradient, dual_correct]
 
+/-- **general power rule** (variable exponent): with `exp' = exp`, the derivative of
+    `u^v = exp (v · ln u)` is `u^v · (v' · ln u + v · ln'(u) · u')`; with `ln'(u) = 1/u` that is
+    `v·u^(v-1)·u' + u^v·ln(u)·v'` — the second term is the one a constant-exponent rule lacks. -/
+theorem gpow_rule (F : FnEnv α) (p : List α) (v : Nat) (a b : Expr α)
+    (hexp : ∀ x, F 5 1 x = F 5 0 x) :
+    eval F p (D v (gpow a b)) =
+      eval F p (gpow a b) *
+        (eval F p (D v b) * F 6 0 (eval F p a) + eval F p b * (F 6 1 (eval F p a) * eval F p (D v a))) := by
+  simp [gpow, D, eval, hexp]
+
+/-- … and the dual-number oracle computes exactly that -/
+theorem gpow_dual (F : FnEnv α) (p : List α) (v : Nat) (a b : Expr α)
+    (hexp : ∀ x, F 5 1 x = F 5 0 x) :
+    (evalDual F p v (gpow a b)).eps =
+      eval F p (gpow a b) *
+        (eval F p (D v b) * F 6 0 (eval F p a) + eval F p b * (F 6 1 (eval F p a) * eval F p (D v a))) := by
+  rw [dual_correct, gpow_rule F p v a b hexp]
+
 end Dual
 
 /-! ## `D` is the coefficient of the linear term (polynomial expressions) -/
